@@ -34,6 +34,11 @@ CLAIMS = {
    ref="§4 C04",
    note="Call graph is CHA (quick) / VTA (thorough) restricted to packages linked into cmd/staticcheck; std-lib bodies are opaque; assumes the environment is fixed between compared runs as the property states; exemptions are one line per field/call site with a reason.",
    technique="interprocedural field effect sets over the call graph + value-origin slices of hash writes + who-may-call tables"),
+ "C06": dict(
+   text="Structural necessary conditions of deterministic, race-free linting, decided over the whole module: worker-reachable writes to package-level variables are lock-held; the dependency counter/statistics are atomic-only; handlers write only their own action and never the graph shape; in genericHandle all writes precede the releasing decrement and enqueueing happens only on the decrement reaching zero; every map-ordered slice in the output pipeline is sorted before use or listed with a reason; the print comparator is total over printed and de-duplicated fields. Not a race detector: it decides ownership/ordering shape, not all interleavings.",
+   ref="§4 C06",
+   note="Call graph VTA∘CHA with callback over-approximation, restricted to code linked into cmd/staticcheck; Go memory model for atomics/channels assumed; exemptions one per symbol in tables/c06_order.tsv. Observation (not decided): -f binary bytes differ between a cold and a warm run because encoding/gob assigns type ids process-globally; decoded content is identical.",
+   technique="lock-held dominance + happens-before path queries on SSA, map-order taint with sort sanitisers, comparator-chain extraction"),
 }
 
 NOT_APPLICABLE = {
